@@ -37,7 +37,7 @@ Proof.
   intros Ia Ib Na Nb Hlt H. unfold embed in H. destruct fits; [|discriminate].
   destruct (common_name g a b) eqn:C; [discriminate|].
   destruct (grid_add g a b) as [r0|] eqn:A; cbn [bind] in H; [|discriminate].
-  destruct (grid_add_spec g a b r0 Ia Ib (common_name_false g a b C) A) as [I0 [P0 [Qb Lc]]].
+  destruct (grid_add_spec g a b r0 Ia Ib (same_name_replaced g a b (common_name_false g a b C)) A) as [I0 [P0 [Qb [Qi Lc]]]].
   destruct (bget r0 (bn r0 (c0 r0 j))) as [i0|] eqn:E0; [|discriminate].
   destruct (bget r0 (bn r0 (c1 r0 j))) as [i1|] eqn:E1; [|discriminate].
   destruct (inv_bget r0 _ _ I0 E0) as [B0 _]. destruct (inv_bget r0 _ _ I0 E1) as [B1 _].
